@@ -104,8 +104,19 @@ Parse(t) ==
          [] Kind(t) = "n" -> Err
          [] Kind(t) = "p" -> Err
          [] OTHER -> Simple(t)
-(* IsReverse: first position > last position; indexes an empty list when nothing is denoted *)
+(* IsReverse.  The strand of a location is given by the complement() operators above its spans: Parity(t) is the set of  *)
+(* complement-parities of its leaves ({0} forward, {1} reverse, {0,1} mixed strands).  The reader looks at the operators   *)
+(* in front of the first span (Reverse).  Before the repair 8d... it compared the first and the last position            *)
+(* (ReverseByOrder): a forward join that runs across the origin of a circular genome, join(8..9,2..4), was taken for the  *)
+(* reverse strand, and a location denoting nothing indexed an empty list.                                                  *)
+RECURSIVE Parity(_, _)
+Parity(t, p) == IF IsLeaf(t) THEN {p}
+                ELSE UNION {Parity(Kids(t)[i], IF Kind(t) = "c" THEN 1 - p ELSE p) : i \in 1..Len(Kids(t))}
+RECURSIVE FirstParity(_, _)
+FirstParity(t, p) == IF IsLeaf(t) THEN p ELSE FirstParity(Kids(t)[1], IF Kind(t) = "c" THEN 1 - p ELSE p)
 Reverse(t) == LET p == Parse(t) IN
+              IF p.class # "ok" THEN p.class ELSE IF FirstParity(t, 0) = 1 THEN "reverse" ELSE "forward"
+ReverseByOrder(t) == LET p == Parse(t) IN
               IF p.class # "ok" THEN p.class ELSE IF Len(p.pos) = 0 THEN "panic" ELSE IF p.pos[1] > p.pos[Len(p.pos)] THEN "reverse" ELSE "forward"
 
 (* ---- the forms the documentation of `variants` promises to read ------------- *)
